@@ -86,6 +86,8 @@ def explore(ctx, res, prop, quick=250, thorough=4000):
             continue
         res.programs += 1
         per = VALUES_PER[fam] * (1 if ctx.tier == "quick" or fam in ("values", "forms") else 4)
+        if fam in ("values", "recursive-sequence", "recursive-choice"):
+            aliasing_probe(res, prop, fam, case)
         for j in range(per):
             one_value(ctx, res, prop, fam, case, j, pending)
     compare_model(ctx, res, pending, prop)
@@ -148,6 +150,37 @@ def one_value(ctx, res, prop, fam, case, j, pending):
             f["known"] = known
             res.known_hits[known] = res.known_hits.get(known, 0) + 1
         res.failures.append(f)
+
+
+def aliasing_probe(res, prop, fam, case):
+    """value objects built without arguments must not share state: filling one in place (obj._value_1.append(...), the
+    documented way to build repeated content) must leave every other object, and hence its XML, unchanged"""
+    zs, root = case.schemas[True]
+    for tname in case.src["types"]:
+        try:
+            T = zs.get_type("{%s}%s" % (xsdgen.TNS, tname))
+            a, b = T(), T()
+        except Exception:  # noqa
+            continue
+        before = json.dumps(valgen.canon(a), default=str, sort_keys=True)
+        touched = 0
+        for k in b:
+            v = b[k]
+            if isinstance(v, list):
+                v.append("__filled_in_place__")
+                touched += 1
+            elif isinstance(v, dict):
+                v["__filled_in_place__"] = 1
+                touched += 1
+        if not touched:
+            continue
+        res.count("aliasing-probe")
+        after = json.dumps(valgen.canon(a), default=str, sort_keys=True)
+        if before != after:
+            res.failures.append(dict(what="a freshly built value object of type %s changed when another object of the same type was filled in place "
+                                          "(shared default state): data the caller never supplied would be emitted" % tname,
+                                     case=dict(family=fam, seed=case.seed, profile=case.profile, index=0, xsd=case.xsd, type=tname, probe="aliasing",
+                                               before=before[:300], after=after[:300])))
 
 
 def mixed_xsitype_list(st):
@@ -304,6 +337,15 @@ def search(ctx):
     return run(ctx)
 
 
+def rebuild_case(c):
+    fam = c["family"]
+    if fam == "values":
+        return enginea.VCase(c["seed"])
+    if fam == "recursive-choice":
+        return enginea.VCase(c["seed"], c["profile"], src=valgen.recursive_choice_schema())
+    return enginea.VCase(c["seed"], c["profile"], src=valgen.recursive_sequence_schema())
+
+
 def rebuild(c):
     """case dict -> (VCase, value, reference document, style, PRNG): every choice derives from (profile, seed, index)"""
     fam = c["family"]
@@ -325,6 +367,11 @@ def rebuild(c):
 
 def replay(ctx, payload, prop="C01"):
     c = payload.get("case", payload)
+    if c.get("probe") == "aliasing":
+        case = rebuild_case(c)
+        res = Result()
+        aliasing_probe(res, prop, c["family"], case)
+        return not res.failures, "aliasing probe: %s" % (res.failures[0]["what"] if res.failures else "objects are independent")
     case, st, ref, style, rng = rebuild(c)
     if etree.tostring(valgen.strip_markers(ref)).decode() != c["reference"]:
         return False, "could not regenerate the recorded value"
